@@ -984,4 +984,33 @@ theorem C09_write_read_logical :
     ∀ i ∈ [0, 1, 3], ∀ d ∈ [44, 41], ∀ nullable ∈ [true, false],
       enumRoundTrip Generated.lexCfg .logical nullable i d = true := by decide
 
+/-! ## non-vacuity: the hypotheses of the theorems above are satisfiable (evaluation of the model) -/
+
+/-- read without error -/
+def readsNoErr {F} (o : Outcome (ReadResult F)) : Bool :=
+  match o with
+  | .ok r => r.sev == .null
+  | .overflow => false
+
+def someRef : Int → RefLookup := fun id => if id == 5 then .found else .missing
+
+-- `-12 ,`  `.t.)`  `.RED.,`  `#5,`  `"0A",`  `'it''s',`  `1.5E3,`  `12,` (NUMBER)  and `$ ,` for an OPTIONAL REAL
+example : readsNoErr (attrRead dblOps Generated.lexCfg noRef .integer false (IStream.ofBytes [45, 49, 50, 32, 44])) = true := by decide
+example : readsNoErr (attrRead dblOps Generated.lexCfg noRef .logical false (IStream.ofBytes [46, 116, 46, 41])) = true := by decide
+example : readsNoErr (attrRead dblOps Generated.lexCfg noRef (.enumeration [[82, 69, 68]]) false
+    (IStream.ofBytes [46, 82, 69, 68, 46, 44])) = true := by decide
+example : readsNoErr (attrRead dblOps Generated.lexCfg someRef .ref false (IStream.ofBytes [35, 53, 44])) = true := by decide
+example : readsNoErr (attrRead dblOps Generated.lexCfg noRef .binary false (IStream.ofBytes [34, 48, 65, 34, 44])) = true := by decide
+example : readsNoErr (attrRead dblOps Generated.lexCfg noRef .string false
+    (IStream.ofBytes [39, 105, 116, 39, 39, 115, 39, 44])) = true := by decide
+example : readsNoErr (attrRead dblOps Generated.lexCfg noRef .real false (IStream.ofBytes [49, 46, 53, 69, 51, 44])) = true := by decide
+example : readsNoErr (attrRead dblOps Generated.lexCfg noRef .number false (IStream.ofBytes [49, 50, 44])) = true := by decide
+example : silentUnset (attrRead dblOps Generated.lexCfg noRef .real true (IStream.ofBytes [36, 32, 44])) = true := by decide
+example : isInteger [45, 49, 50] = true ∧ longMin ≤ denoteInteger [45, 49, 50] ∧ denoteInteger [45, 49, 50] < longMax := by decide
+example : FirstByteNot [49] [0, 47] := by
+  intro sp c t h _ _
+  cases sp with
+  | nil => simp at h; rw [← h.1]; decide
+  | cons x sp' => simp at h
+
 end StepModel.P21.C09
